@@ -225,20 +225,25 @@ Qed.
 Lemma mbits_hashable : forall l, forallb py_hashable (map mbit l) = true.
 Proof. induction l; simpl; auto. Qed.
 
-Theorem key_hashable : forall fp v k,
-  wf v = true -> no_pandas v = true ->
-  to_hashable fp v = Ok k -> py_hashable k = true.
+Section KeyHashable.
+  (* the two pandas leaves are proved further down (series_key, frame_key) and plugged in by key_hashable *)
+  Variable fp : bool.
+  Hypothesis series_ok : forall n d i x k, wf (PSeries n d i x) = true ->
+    to_hashable fp (PSeries n d i x) = Ok k -> py_hashable k = true.
+  Hypothesis frame_ok : forall c i k, wf (PFrame c i) = true ->
+    to_hashable fp (PFrame c i) = Ok k -> py_hashable k = true.
+
+Theorem key_hashable_gen : forall v k,
+  wf v = true -> to_hashable fp v = Ok k -> py_hashable k = true.
 Proof.
-  intros fp v. induction v as [a|sk l IH|sk l IH|mk kvs IH|n d i x|c i] using pyval_ind2;
-    intros k Hwf Hnp Hth.
+  intros v. induction v as [a|sk l IH|sk l IH|mk kvs IH|n d i x|c i] using pyval_ind2;
+    intros k Hwf Hth.
   - rewrite th_atom_eq in Hth. unfold th_atom in Hth. destruct (atom_hashable a) eqn:Ha.
     + inversion Hth; subst. exact Ha.
     + destruct a; try discriminate. destruct fp, picklable; try discriminate. inversion Hth; subst. reflexivity.
   - destruct (py_hashable (PSeq sk l)) eqn:Hh.
     { rewrite th_hashable in Hth by exact Hh. inversion Hth; subst. exact Hh. }
     rewrite th_seq in Hth by exact Hh.
-    assert (Hnpl : forall x, In x l -> no_pandas x = true).
-    { unfold no_pandas in Hnp. simpl in Hnp. rewrite forallb_forall in Hnp. exact Hnp. }
     assert (Hconv : (forall d sh, sk <> KNd true d sh) -> forall d,
               hashable_iterable false (map (fun x => (x, to_hashable fp x)) l) = Ok d -> py_hashable d = true).
     { intros Hsk d Hd. apply iterable_unsorted in Hd. destruct Hd as (out & -> & HF). simpl.
@@ -288,13 +293,11 @@ Proof.
     simpl in Hwf. apply andb_true_iff in Hwf. destruct Hwf as [Hwf Hkind].
     apply andb_true_iff in Hwf. destruct Hwf as [Hwf _]. apply andb_true_iff in Hwf. destruct Hwf as [Hwfkv Hhk].
     rewrite forallb_forall in Hwfkv, Hhk.
-    unfold no_pandas in Hnp. simpl in Hnp. rewrite forallb_forall in Hnp.
     rewrite Forall_forall in IH.
     assert (Hitems : forall it, In it (mk_items fp kvs) ->
               py_hashable (fst (fst it)) = true /\ (forall hv, snd it = Ok hv -> py_hashable hv = true)).
     { intros it Hit. apply in_mk_items in Hit. destruct Hit as (kv & Hkv & ->). simpl. split; [apply Hhk; auto|].
       intros hv Hhv. specialize (Hwfkv kv Hkv). apply andb_true_iff in Hwfkv. destruct Hwfkv as [_ Hwv].
-      specialize (Hnp kv Hkv). apply andb_true_iff in Hnp. destruct Hnp as [_ Hnpv].
       destruct (IH kv Hkv) as [_ IHv]. eapply IHv; eauto. }
     assert (Hmapping : forall srt d, hashable_mapping srt (mk_items fp kvs) = Ok d -> py_hashable d = true).
     { intros srt d Hd. apply mapping_out in Hd. destruct Hd as (its & out & Hs & -> & HF). simpl.
@@ -318,9 +321,10 @@ Proof.
       destruct (Hitems it Hit) as [Hk _]. apply in_mk_items in Hit. destruct Hit as (kv & Hkv & ->). simpl in *.
       rewrite Hk. rewrite forallb_forall in Hkind. specialize (Hkind kv Hkv).
       rewrite (scalar_hashable (snd kv)); [reflexivity|]. rewrite Hkind. reflexivity.
-  - unfold no_pandas in Hnp. simpl in Hnp. discriminate.
-  - unfold no_pandas in Hnp. simpl in Hnp. discriminate.
+  - eapply series_ok; eauto.
+  - eapply frame_ok; eauto.
 Qed.
+End KeyHashable.
 
 (* ================= sorting of set elements / mapping items under the guard ================= *)
 Ltac bsplit :=
@@ -966,20 +970,31 @@ Qed.
 Lemma conv_fa_seq : forall p sk l, forall_atoms p (PSeq sk l) = forallb (forall_atoms p) l.
 Proof. reflexivity. Qed.
 
-Definition g0 (v : pyval) : bool := wf v && no_pandas v.
-Lemma g0_intro : forall v, wf v = true -> no_pandas v = true -> g0 v = true.
-Proof. intros v H1 H3. unfold g0. rewrite H1, H3. reflexivity. Qed.
+Definition g0 (v : pyval) : bool := wf v.
 
 Lemma g0_seq_children : forall sk l, g0 (PSeq sk l) = true -> (forall d sh, sk <> KNd true d sh) ->
   Forall (fun x => g0 x = true) l.
-Proof. exact g_seq_children. Qed.
+Proof.
+  intros sk l H Hsk. apply Forall_forall. intros x Hx. assert (Hw := wf_seq_children sk l H Hsk).
+  rewrite forallb_forall in Hw. apply Hw. exact Hx.
+Qed.
 
 Lemma g0_map_values : forall mk kvs, g0 (PMap mk kvs) = true -> Forall (fun kv => g0 (snd kv) = true) kvs.
-Proof. exact g_map_values. Qed.
-
-Theorem total_g : forall fp v, g0 v = true -> convertible fp v = true -> exists k, to_hashable fp v = Ok k.
 Proof.
-  intros fp v. induction v as [a|sk l IH|sk l IH|mk kvs IH|n d i x|c i] using pyval_ind2; intros Hg Hc.
+  intros mk kvs H. unfold g0 in H. simpl in H. apply andb_true_iff in H. destruct H as [H _].
+  apply andb_true_iff in H. destruct H as [H _]. apply andb_true_iff in H. destruct H as [H _].
+  apply Forall_forall. intros kv Hkv. rewrite forallb_forall in H. specialize (H kv Hkv).
+  apply andb_true_iff in H. destruct H. assumption.
+Qed.
+
+Section Total.
+  Variable fp : bool.
+  Hypothesis series_tot : forall n d i x, wf (PSeries n d i x) = true -> exists k, to_hashable fp (PSeries n d i x) = Ok k.
+  Hypothesis frame_tot : forall c i, wf (PFrame c i) = true -> exists k, to_hashable fp (PFrame c i) = Ok k.
+
+Theorem total_g : forall v, g0 v = true -> convertible fp v = true -> exists k, to_hashable fp v = Ok k.
+Proof.
+  intros v. induction v as [a|sk l IH|sk l IH|mk kvs IH|n d i x|c i] using pyval_ind2; intros Hg Hc.
   - rewrite th_atom_eq. unfold th_atom. destruct (atom_hashable a) eqn:Ha; eauto.
     destruct a; try discriminate.
     unfold convertible in Hc. simpl in Hc. apply andb_true_iff in Hc. destruct Hc as [-> ->]. eauto.
@@ -1004,7 +1019,7 @@ Proof.
   - destruct (py_hashable (PSetv sk l)) eqn:Hh; [rewrite th_hashable by exact Hh; eauto|].
     rewrite th_set by exact Hh. destruct sk; [|simpl in Hh; discriminate].
     unfold set_body, hashable_iterable.
-    assert (Hwf : wf (PSet l) = true) by (unfold g0 in Hg; bsplit; assumption).
+    assert (Hwf : wf (PSet l) = true) by exact Hg.
     simpl in Hwf. apply andb_true_iff in Hwf. destruct Hwf as [Hwf Hnd]. apply andb_true_iff in Hwf. destruct Hwf as [Hwl Hhl].
     set (elems := map (fun x => (x, to_hashable fp x)) l).
     destruct (sort_elems elems) as (es & Hs & Hp & _).
@@ -1021,7 +1036,7 @@ Proof.
     { intros kv Hkv. destruct (IH kv Hkv) as [_ IHv]. apply IHv; auto.
       unfold convertible in Hc |- *. simpl in Hc. rewrite forallb_forall in Hc. specialize (Hc kv Hkv).
       apply andb_true_iff in Hc. destruct Hc. assumption. }
-    assert (Hwf : wf (PMap mk kvs) = true) by (unfold g0 in Hg; bsplit; assumption).
+    assert (Hwf : wf (PMap mk kvs) = true) by exact Hg.
     assert (Hnd : nodup_by (rel false) (map fst kvs) = true).
     { simpl in Hwf. apply andb_true_iff in Hwf. destruct Hwf as [Hwf _]. apply andb_true_iff in Hwf.
       destruct Hwf as [_ Hnd]. exact Hnd. }
@@ -1049,15 +1064,11 @@ Proof.
       destruct (Hout its Hp) as [out Ho]. rewrite Ho. cbn [bind]. eauto.
     + destruct (Hsort (strip kvs) (strip_incl kvs) (strip_nodup _ Hnd)) as (its & Hs & Hp).
       rewrite Hs. cbn [bind]. eauto.
-  - unfold g0 in Hg. bsplit. match goal with H : no_pandas _ = true |- _ => unfold no_pandas in H; simpl in H; discriminate end.
-  - unfold g0 in Hg. bsplit. match goal with H : no_pandas _ = true |- _ => unfold no_pandas in H; simpl in H; discriminate end.
+  - apply series_tot. exact Hg.
+  - apply frame_tot. exact Hg.
 Qed.
+End Total.
 
-
-Theorem total_on_supported : forall fp v,
-  wf v = true -> no_pandas v = true -> convertible fp v = true ->
-  exists k, to_hashable fp v = Ok k.
-Proof. intros fp v H1 H3 H4. apply total_g; auto. apply g0_intro; auto. Qed.
 
 (* ================= refutations of the unguarded statements (witnesses replayed on the real code) ================= *)
 (* pd.Series([1, 2], index=['a', 'b']) vs pd.Series([2, 1], index=['b', 'a']): different values, EQUAL keys *)
@@ -1642,4 +1653,218 @@ Proof.
   - simpl. rewrite atom_eq_refl, str_eqb_refl, !atoms_eq_refl. reflexivity.
   - simpl. rewrite atoms_eq_refl, andb_true_r. induction c as [|col c IHc]; simpl; auto.
     rewrite atom_eq_refl, str_eqb_refl, atoms_eq_refl. simpl. exact IHc.
+Qed.
+
+(* ================= pandas values: a hashable key is always returned ================= *)
+Lemma dict_set_in : forall d k v kv, In kv (dict_set d k v) ->
+  (In (fst kv) (map fst d) \/ fst kv = k) /\ (In (snd kv) (map snd d) \/ snd kv = v).
+Proof.
+  induction d as [|[k' v'] t IH]; intros k v kv H; simpl in H.
+  - destruct H as [H|[]]. subst. simpl. auto.
+  - destruct (atom_eq k' k).
+    + destruct H as [H|H]; [subst; simpl; auto|]. simpl. split; left; right; apply in_map; auto.
+    + destruct H as [H|H]; [subst; simpl; auto|]. destruct (IH k v kv H) as [[H1|H1] [H2|H2]]; simpl; auto.
+Qed.
+
+Lemma dict_set_nodup : forall d k v, nodup_by atom_eq (map fst d) = true ->
+  nodup_by atom_eq (map fst (dict_set d k v)) = true.
+Proof.
+  induction d as [|[k' v'] t IH]; intros k v H; simpl; auto.
+  simpl in H. apply andb_true_iff in H. destruct H as [Hx Ht].
+  destruct (atom_eq k' k) eqn:E; simpl.
+  - rewrite Hx, Ht. reflexivity.
+  - rewrite IH by auto. rewrite andb_true_r. apply negb_true_iff in Hx. apply negb_true_iff.
+    destruct (existsb (atom_eq k') (map fst (dict_set t k v))) eqn:Ex; auto.
+    apply existsb_exists in Ex. destruct Ex as (y & Hy & Hr). apply in_map_iff in Hy. destruct Hy as (kv & <- & Hin).
+    destruct (dict_set_in t k v kv Hin) as [[H1|H1] _].
+    + assert (existsb (atom_eq k') (map fst t) = true); [|congruence]. apply existsb_exists. eauto.
+    + rewrite H1 in Hr. congruence.
+Qed.
+
+Definition dict_inv (P Q : atom -> Prop) (d : list (atom * atom)) : Prop :=
+  nodup_by atom_eq (map fst d) = true /\ forall kv, In kv d -> P (fst kv) /\ Q (snd kv).
+
+Lemma dict_set_inv : forall (P Q : atom -> Prop) d k v, dict_inv P Q d -> P k -> Q v -> dict_inv P Q (dict_set d k v).
+Proof.
+  intros P Q d k v [Hn Hd] Hk Hv. split; [apply dict_set_nodup; auto|].
+  intros kv Hin. destruct (dict_set_in d k v kv Hin) as [H1 H2]. split.
+  - destruct H1 as [H1|H1]; [|subst; auto]. apply in_map_iff in H1. destruct H1 as (kv' & <- & Hin'). apply Hd; auto.
+  - destruct H2 as [H2|H2]; [|subst; auto]. apply in_map_iff in H2. destruct H2 as (kv' & <- & Hin'). apply Hd; auto.
+Qed.
+
+Lemma to_dict_inv : forall (P Q : atom -> Prop) idx vals,
+  (forall a, In a idx -> P a) -> (forall a, In a vals -> Q a) -> dict_inv P Q (to_dict idx vals).
+Proof.
+  intros P Q idx vals HP HQ. unfold to_dict.
+  assert (Hc : forall kv, In kv (combine idx vals) -> P (fst kv) /\ Q (snd kv)).
+  { intros [k v] H. split; [apply HP; eapply in_combine_l; eauto|apply HQ; eapply in_combine_r; eauto]. }
+  assert (H0 : dict_inv P Q []) by (split; [reflexivity|intros kv []]).
+  revert H0. generalize (@nil (atom * atom)). induction (combine idx vals) as [|kv t IH]; intros d Hd; simpl; auto.
+  apply IH; [intros; apply Hc; simpl; auto|]. destruct (Hc kv) as [H1 H2]; [simpl; auto|].
+  apply dict_set_inv; auto.
+Qed.
+
+Definition cellP (a : atom) : Prop := cell_ok a = true.
+Lemma cell_hashable : forall a, cell_ok a = true -> atom_hashable a = true /\ wf (PA a) = true.
+Proof. destruct a; simpl; intros; try discriminate; auto. Qed.
+Lemma th_atom_cell : forall fp a, cell_ok a = true -> th_atom fp a = Ok (PA a).
+Proof. intros fp a H. unfold th_atom. destruct (cell_hashable a H) as [-> _]. reflexivity. Qed.
+
+Lemma existsb_map_PA : forall x t, existsb (rel false (PA x)) (map PA t) = existsb (atom_eq x) t.
+Proof. induction t as [|y t IH]; cbn [map existsb]; auto. rewrite IH, rel_atom_l. reflexivity. Qed.
+Lemma atoms_nodup_rel : forall l, nodup_by atom_eq l = true -> nodup_by (rel false) (map PA l) = true.
+Proof.
+  induction l as [|x t IH]; cbn [map nodup_by]; intros H; auto. apply andb_true_iff in H. destruct H as [Hx Ht].
+  rewrite IH by auto. rewrite andb_true_r. rewrite existsb_map_PA. exact Hx.
+Qed.
+
+Lemma mapping_total_hashable : forall (items : list item),
+  NoDup (map ikey items) ->
+  (forall it, In it items -> py_hashable (fst (fst it)) = true
+                             /\ exists hv, snd it = Ok hv /\ py_hashable hv = true) ->
+  exists d, hashable_mapping true items = Ok d /\ py_hashable d = true.
+Proof.
+  intros items Hnd Hit. destruct (sort_items items Hnd) as (its & Hs & Hp & _).
+  unfold hashable_mapping. rewrite Hs. cbn [bind].
+  assert (Hits : forall it, In it its -> py_hashable (fst (fst it)) = true
+                                         /\ exists hv, snd it = Ok hv /\ py_hashable hv = true).
+  { intros it Hin. apply Hit. apply (Permutation_in _ (Permutation_sym Hp)). exact Hin. }
+  clear Hs Hp Hnd Hit.
+  assert (Hout : exists out, mapM (fun it : item => do hv <- snd it; Ok (pair_t (fst (fst it)) hv)) its = Ok out
+                             /\ forallb py_hashable out = true).
+  { induction its as [|it its IH]; [exists []; split; reflexivity|].
+    destruct (Hits it) as [Hk (hv & Hhv & Hh)]; [simpl; auto|].
+    destruct IH as (out & Ho & Hhout); [intros; apply Hits; simpl; auto|].
+    exists (pair_t (fst (fst it)) hv :: out). split.
+    - cbn [mapM]. rewrite Hhv. cbn [bind]. rewrite Ho. reflexivity.
+    - cbn [forallb]. rewrite Hhout, andb_true_r. simpl. rewrite Hk, Hh. reflexivity. }
+  destruct Hout as (out & Ho & Hh). rewrite Ho. cbn [bind]. eexists. split; [reflexivity|]. simpl. exact Hh.
+Qed.
+
+Lemma atoms_ikeys : forall (d : list (atom * atom)) (f : atom * atom -> item),
+  (forall kv, fst (fst (f kv)) = PA (fst kv)) ->
+  map ikey (map f d) = map ckey (map PA (map fst d)).
+Proof. intros d f Hf. rewrite !map_map. apply map_ext. intros kv. unfold ikey. rewrite Hf. reflexivity. Qed.
+
+Lemma cells_nodup_keys : forall (d : list (atom * atom)),
+  nodup_by atom_eq (map fst d) = true -> (forall kv, In kv d -> cell_ok (fst kv) = true) ->
+  NoDup (map ckey (map PA (map fst d))).
+Proof.
+  intros d Hn Hc. apply nodup_ckeys; [|apply atoms_nodup_rel; auto].
+  intros x Hx. apply in_map_iff in Hx. destruct Hx as (a & <- & Ha). apply in_map_iff in Ha.
+  destruct Ha as (kv & <- & Hkv). destruct (cell_hashable _ (Hc kv Hkv)). split; auto.
+Qed.
+
+Theorem series_key : forall fp n d idx vals, wf (PSeries n d idx vals) = true ->
+  exists k, to_hashable fp (PSeries n d idx vals) = Ok k /\ py_hashable k = true.
+Proof.
+  intros fp n d idx vals Hwf. simpl in Hwf.
+  repeat (apply andb_true_iff in Hwf; destruct Hwf as [Hwf ?]).
+  rewrite forallb_forall in *.
+  match goal with H : forall x, In x idx -> cell_ok x = true |- _ => rename H into Hidx end.
+  match goal with H : forall x, In x vals -> cell_ok x = true |- _ => rename H into Hvals end.
+  destruct (to_dict_inv cellP cellP idx vals Hidx Hvals) as [Hn Hd].
+  set (f := fun kv : atom * atom => (PA (fst kv), PA (snd kv), th_atom fp (snd kv)) : item).
+  destruct (mapping_total_hashable (map f (to_dict idx vals))) as (dk & Hdk & Hh).
+  - rewrite (atoms_ikeys _ f) by reflexivity. apply cells_nodup_keys; auto. intros kv Hkv. apply Hd; auto.
+  - intros it Hit. apply in_map_iff in Hit. destruct Hit as (kv & <- & Hkv). destruct (Hd kv Hkv) as [Hk Hv].
+    simpl. split; [apply cell_hashable; auto|]. exists (PA (snd kv)). split; [apply th_atom_cell; auto|].
+    apply cell_hashable; auto.
+  - change (to_hashable fp (PSeries n d idx vals)) with
+      (do dk <- hashable_mapping true (map f (to_dict idx vals));
+       Ok (conv (s "Series") (PTuple [PA n; conv (s "dict") dk]))).
+    rewrite Hdk. cbn [bind]. eexists. split; [reflexivity|]. simpl. rewrite Hh.
+    destruct n; simpl in Hwf; try discriminate; reflexivity.
+Qed.
+
+Definition frame_dict (cols : list (atom * (str * list atom))) : list (atom * atom) :=
+  fold_left (fun d c => dict_set d (fst c) (AInt 0)) cols [].
+Definition frame_colval (cols : list (atom * (str * list atom))) (c : atom) : list atom :=
+  (fix last (l : list (atom * (str * list atom))) (acc : list atom) : list atom :=
+     match l with
+     | [] => acc
+     | c' :: t => last t (if atom_eq (fst c') c then snd (snd c') else acc)
+     end) cols [].
+
+Lemma frame_dict_inv : forall cols, (forall c, In c cols -> cell_ok (fst c) = true) ->
+  dict_inv cellP (fun _ => True) (frame_dict cols).
+Proof.
+  intros cols Hc. unfold frame_dict.
+  assert (H0 : dict_inv cellP (fun _ : atom => True) []) by (split; [reflexivity|intros kv []]).
+  revert H0. generalize (@nil (atom * atom)). induction cols as [|c t IH]; intros d Hd; simpl; auto.
+  apply IH; [intros; apply Hc; simpl; auto|]. apply dict_set_inv; auto. apply Hc. simpl. auto.
+Qed.
+
+Lemma frame_colval_cells : forall cols c a,
+  (forall col, In col cols -> forall x, In x (snd (snd col)) -> cell_ok x = true) ->
+  In a (frame_colval cols c) -> cell_ok a = true.
+Proof.
+  intros cols c a Hcols. unfold frame_colval.
+  assert (Hacc : forall x, In x (@nil atom) -> cell_ok x = true) by (intros x []).
+  revert Hacc. generalize (@nil atom). induction cols as [|c' t IH]; intros acc Hacc Hin; simpl in Hin; auto.
+  apply IH in Hin; auto; [intros; eapply Hcols; simpl; eauto|].
+  destruct (atom_eq (fst c') c); auto. intros x Hx. eapply (Hcols c'); simpl; eauto.
+Qed.
+
+Lemma iter_cells : forall fp vs, (forall a, In a vs -> cell_ok a = true) ->
+  hashable_iterable false (map (fun a => (PA a, th_atom fp a)) vs) = Ok (PTuple (map PA vs)).
+Proof.
+  intros fp vs Hc. unfold hashable_iterable. cbn [bind].
+  assert (Hm : mapM (fun e : elem => snd e) (map (fun a => (PA a, th_atom fp a)) vs) = Ok (map PA vs)).
+  { induction vs as [|a t IH]; simpl; auto. rewrite th_atom_cell by (apply Hc; simpl; auto). cbn [bind].
+    rewrite IH by (intros; apply Hc; simpl; auto). reflexivity. }
+  rewrite Hm. reflexivity.
+Qed.
+
+Lemma cells_hashable : forall vs, (forall a, In a vs -> cell_ok a = true) -> forallb py_hashable (map PA vs) = true.
+Proof.
+  intros vs Hc. apply forallb_forall. intros x Hx. apply in_map_iff in Hx. destruct Hx as (a & <- & Ha).
+  simpl. apply cell_hashable. auto.
+Qed.
+
+Theorem frame_key : forall fp cols idx, wf (PFrame cols idx) = true ->
+  exists k, to_hashable fp (PFrame cols idx) = Ok k /\ py_hashable k = true.
+Proof.
+  intros fp cols idx Hwf. simpl in Hwf.
+  apply andb_true_iff in Hwf. destruct Hwf as [Hwf _]. apply andb_true_iff in Hwf. destruct Hwf as [Hcols _].
+  rewrite forallb_forall in Hcols.
+  assert (Hname : forall c, In c cols -> cell_ok (fst c) = true).
+  { intros c Hc. specialize (Hcols c Hc). repeat (apply andb_true_iff in Hcols; destruct Hcols as [Hcols ?]). auto. }
+  assert (Hcells : forall col, In col cols -> forall x, In x (snd (snd col)) -> cell_ok x = true).
+  { intros c Hc x Hx. specialize (Hcols c Hc). repeat (apply andb_true_iff in Hcols; destruct Hcols as [Hcols ?]).
+    match goal with H : forallb cell_ok (snd (snd c)) = true |- _ => rewrite forallb_forall in H; auto end. }
+  destruct (frame_dict_inv cols Hname) as [Hn Hd].
+  set (f := fun kv : atom * atom =>
+              let vs := frame_colval cols (fst kv) in
+              (PA (fst kv), PList (map PA vs),
+               do d <- hashable_iterable false (map (fun a => (PA a, th_atom fp a)) vs);
+               Ok (conv (s "list") d)) : item).
+  destruct (mapping_total_hashable (map f (frame_dict cols))) as (dk & Hdk & Hh).
+  - rewrite (atoms_ikeys _ f) by reflexivity. apply cells_nodup_keys; auto. intros kv Hkv. apply Hd; auto.
+  - intros it Hit. apply in_map_iff in Hit. destruct Hit as (kv & <- & Hkv). destruct (Hd kv Hkv) as [Hk _].
+    unfold f. cbn [fst snd]. split; [apply cell_hashable; auto|].
+    assert (Hvs : forall a, In a (frame_colval cols (fst kv)) -> cell_ok a = true)
+      by (intros a Ha; eapply frame_colval_cells; eauto).
+    rewrite (iter_cells fp _ Hvs). cbn [bind]. eexists. split; [reflexivity|].
+    apply conv_hashable. simpl. apply cells_hashable. auto.
+  - change (to_hashable fp (PFrame cols idx)) with
+      (do dk <- hashable_mapping true (map f (frame_dict cols));
+       Ok (conv (s "DataFrame") (conv (s "dict") dk))).
+    rewrite Hdk. cbn [bind]. eexists. split; [reflexivity|]. apply conv_hashable. apply conv_hashable. exact Hh.
+Qed.
+
+(* every well-formed value - pandas included - gets a hashable key *)
+Theorem key_hashable : forall fp v k, wf v = true -> to_hashable fp v = Ok k -> py_hashable k = true.
+Proof.
+  intros fp. apply key_hashable_gen.
+  - intros n d i x k Hwf Hk. destruct (series_key fp n d i x Hwf) as (k' & Hk' & Hh). congruence.
+  - intros c i k Hwf Hk. destruct (frame_key fp c i Hwf) as (k' & Hk' & Hh). congruence.
+Qed.
+
+(* every well-formed value whose opaque objects can use the pickle fallback - pandas included - gets a key *)
+Theorem total_on_supported : forall fp v, wf v = true -> convertible fp v = true -> exists k, to_hashable fp v = Ok k.
+Proof.
+  intros fp v Hwf Hc. apply total_g; auto.
+  - intros n d i x H. destruct (series_key fp n d i x H) as (k & Hk & _). eauto.
+  - intros c i H. destruct (frame_key fp c i H) as (k & Hk & _). eauto.
 Qed.
